@@ -247,6 +247,7 @@ func tableCheck(r *Run, rep *core.Report, rule string, mp *MethodPaths) {
 		return
 	}
 	got := normTable(mp)
+	want = expandUntested(want)
 	mask := func(method, class, outcome string) string {
 		// the first result of Compute when the user's function asks for deletion is not fixed by the
 		// property or the interface comments: don't-care (constrained only by twin agreement, C12)
